@@ -48,6 +48,8 @@ CONFIGS = {
     'assert':   {'defs': ['GRAPHITE2_NTRACING'], 'vm': 'direct'},
     'nofile':   {'defs': ['GRAPHITE2_NTRACING', 'NDEBUG', 'GRAPHITE2_NFILEFACE'], 'vm': 'direct'},
     # cmake -DGRAPHITE2_TELEMETRY=ON: only the units that install an allocation category are parsed (C09 TELESCOPE)
+    # tracing compiled in (what cmake builds unless GRAPHITE2_NTRACING is set): only the rule driver is parsed (C04 DETACH/garbage)
+    'tracepass': {'defs': ['NDEBUG'], 'vm': 'direct', 'units': ['Pass.cpp']},
     'tele':     {'defs': ['GRAPHITE2_NTRACING', 'NDEBUG', 'GRAPHITE2_TELEMETRY'], 'vm': 'direct',
                  'units': ['gr_face.cpp', 'Face.cpp', 'Pass.cpp', 'Code.cpp', 'gr_logging.cpp']},
 }
